@@ -494,7 +494,7 @@ pub fn run(ctx: &Ctx, col: &Collector) -> Meta {
         return meta();
     }
     all_bit_flips(ctx, &fx, col);
-    run_cases(&ctx.run_cfg(ctx.n(20_000, 400_000), 1), "forge", strategy, col, |c, col| check_case(&fx, c, col));
+    run_cases(&ctx.run_cfg(ctx.n(60_000, 1_000_000), 1), "forge", strategy, col, |c, col| check_case(&fx, c, col));
     for k in KINDS {
         // toggling a flavour flag alone changes the sizes that follow: such forgeries are
         // expected to die at deserialization
